@@ -43,3 +43,45 @@ def parallel_modes(inp):
         if ref is not None and res != ref:
             bad.append({'mode': mode, 'differs_from_sequential': True})
     return {'violates': bool(bad), 'detail': bad, 'import concurrent binds concurrent.futures in a fresh interpreter': fact}
+
+
+def partial_trace_consistency(inp):
+    """coupled 5-site chain, all recorded site subsets: Tr_j rho_S = rho_(S-j), trace of every rho_S = norm = 1"""
+    import itertools
+    import numpy as np
+    import oqupy
+    N = 5
+    chain = oqupy.SystemChain(hilbert_space_dimensions=[2] * N)
+    for n in range(N):
+        chain.add_site_hamiltonian(site=n, hamiltonian=0.3 * (n + 1) * oqupy.operators.sigma("x") + 0.2 * oqupy.operators.sigma("z"))
+    for n in range(N - 1):
+        for k, c in zip("xyz", (0.6, 0.65, 0.35)):
+            chain.add_nn_hamiltonian(site=n, hamiltonian_l=c * oqupy.operators.sigma(k), hamiltonian_r=oqupy.operators.sigma(k))
+    amps = oqupy.AugmentedMPS([oqupy.operators.spin_dm(s) for s in ["z-", "x+", "z+", "y+", "z-"]])
+    subsets = [tuple(c) for k in range(1, N + 1) for c in itertools.combinations(range(N), k)]
+    bad = []
+    for order in (1, 2):
+        try:
+            t = oqupy.PtTebd(initial_augmented_mps=amps, system_chain=chain, process_tensors=[None] * N,
+                             parameters=oqupy.PtTebdParameters(dt=0.1, order=order, epsrel=1e-9),
+                             dynamics_sites=[s[0] if len(s) == 1 else s for s in subsets], backend_config={})
+            r = t.compute(6, progress_type="silent")
+        except Exception as e:           # noqa
+            bad.append({'order': order, 'exception': type(e).__name__ + ': ' + str(e)[:150]})
+            continue
+        rho = {s: np.array(r['dynamics'][s[0] if len(s) == 1 else s].states[-1]) for s in subsets}
+        norm = complex(np.array(r['norm'])[-1]) if 'norm' in r else 1.0
+        for s in subsets:
+            if abs(np.trace(rho[s]) - norm) > 1e-7:
+                bad.append({'order': order, 'sites': s, 'trace': complex(np.trace(rho[s])).real, 'norm': norm.real})
+            if len(s) < 2:
+                continue
+            k = len(s)
+            full = rho[s].reshape([2] * (2 * k))
+            for pos in range(k):
+                red = np.trace(full, axis1=pos, axis2=pos + k).reshape(2 ** (k - 1), 2 ** (k - 1))
+                sub = s[:pos] + s[pos + 1:]
+                dev = float(np.abs(red - rho[sub]).max())
+                if dev > 1e-7:
+                    bad.append({'order': order, 'sites': s, 'traced_site': s[pos], 'deviation_from_rho_of_remaining_sites': dev})
+    return {'violates': bool(bad), 'detail': bad[:12]}
